@@ -371,6 +371,173 @@ def case_cross_context(seed, idx, res):
         res["distinct"].append(f"cross:{idx}")
 
 
+def case_crafted_cores(seed, idx, res):
+    """crafted histories through the real solve_end_to_end / check_unsat_cores with a scripted solver: after a query with assertion ids Q1 was
+    answered unsat with core C, a later query Q is answered from the cache iff C is a subset of Q.  Subsets of C, sets overlapping C and
+    disjoint sets must reach the solver (which answers sat); supersets of C may be answered unsat without a solver call."""
+    import os, shutil, tempfile, pathlib
+    from halmos.config import ConfigSource, default_config
+    from halmos.sevm import SMTQuery
+
+    rng = random.Random(f"c16-crafted-{seed}-{idx}")
+    work = os.path.join(report.VERIF, ".work")
+    os.makedirs(work, exist_ok=True)
+    sdir = tempfile.mkdtemp(prefix="c16-crafted-", dir=work)
+    ddir = tempfile.mkdtemp(prefix="c16-dump-", dir=work)
+    try:
+        args = default_config().with_overrides(ConfigSource.command_line, cache_solver=True, solver_command=f"{STUB} {sdir}", solver_timeout_assertion=20.0)
+        sctx = solve_mod.SolvingContext(dump_dir=pathlib.Path(ddir))
+        ids = [str(1000 + i) for i in range(8)]
+
+        def query(assertions):
+            decl = "".join(f"(declare-const |{i}| Bool)\n" for i in assertions)
+            return SMTQuery(decl + "(assert true)", list(assertions))
+
+        core = sorted(rng.sample(ids[:5], rng.choice([2, 3])))
+        q1 = sorted(set(core) | set(rng.sample(ids, 2)))
+        open(os.path.join(sdir, "0.smt2.kind"), "w").write("unsatcore")
+        open(os.path.join(sdir, "0.smt2.core"), "w").write(" ".join(f"<{i}>" for i in core))
+        open(os.path.join(sdir, "default.kind"), "w").write("sat")
+        out1 = solve_mod.solve_end_to_end(solve_mod.PathContext(args=args, path_id=0, solving_ctx=sctx, query=query(q1)))
+        if out1.unsat_core:
+            sctx.unsat_cores.append(out1.unsat_core)  # what the solver callback does with an unsat answer
+        res["counters"]["evaluations"] += 1
+        res["counters"]["crafted_histories"] += 1
+        wit = dict(index=idx, mode="crafted", first_query=q1, core=core, parsed_core=out1.unsat_core)
+        if str(out1.result) != "unsat" or sorted(out1.unsat_core or []) != core:
+            res["violations"].append(dict(what="the unsat core reported by the solver was not parsed as given", key="crafted-core-parse", result=str(out1.result), **wit))
+            return
+        later = {"strict-subset": sorted(core[:-1]), "equal": list(core), "superset": sorted(set(core) | {ids[7]}), "overlap": sorted(set(core[:1]) | {ids[6]}), "disjoint": [ids[5], ids[6]]}
+        for pid, (name, q) in enumerate(later.items(), start=1):
+            calls0 = len(open(os.path.join(sdir, "log")).read().splitlines())
+            o = solve_mod.solve_end_to_end(solve_mod.PathContext(args=args, path_id=pid, solving_ctx=sctx, query=query(q)))
+            calls = len(open(os.path.join(sdir, "log")).read().splitlines()) - calls0
+            contains = set(core) <= set(q)
+            res["counters"]["crafted_lookups"] += 1
+            if not contains and (calls != 1 or str(o.result) != "sat"):
+                res["violations"].append(dict(what="a query that does not contain the cached unsat core was answered from the cache", key="crafted-core-" + name, query=q, result=str(o.result), solver_calls=calls, **wit))
+                return
+            if contains and str(o.result) != "unsat" and calls == 0:
+                res["violations"].append(dict(what="inconsistent cache answer", key="crafted-core-contains-" + name, query=q, result=str(o.result), **wit))
+                return
+            if contains and calls == 0:
+                res["counters"]["crafted_hits_on_supersets"] += 1
+        res["distinct"].append(f"crafted:{idx}")
+    finally:
+        shutil.rmtree(sdir, ignore_errors=True)
+        shutil.rmtree(ddir, ignore_errors=True)
+
+
+def case_weaker_query(seed, idx, res):
+    """two frontier states of one transaction sequence, one with an extra path constraint (armEven: the stored value is even) and one without
+    (arm): the failing path of the invariant on the first is unsat and leaves a core; the failing path on the second is a *weakening* of that
+    query (a subset of its assertions) and is satisfiable.  The contradiction needs the real meaning of the multiplication abstraction, so
+    only the assertion solver can decide it.  With the cache on the test must FAIL exactly as with the cache off."""
+    import invgen
+
+    rng = random.Random(f"c16-weaker-{seed}-{idx}")
+    U = ("uint", 256)
+    mask = rng.choice([1, 3])
+    fns = [A.Fn("set", [("v", U)], A.arg(0) + [0, "SSTORE", 0, 1, "SSTORE", "STOP"]),
+           A.Fn("armEven", [], [0, "SLOAD", 1, "AND", "@odd", "JUMPI", 1, 1, "SSTORE", "STOP", ":odd", 0, 0, "REVERT"]),
+           A.Fn("arm", [], [1, 1, "SSTORE", "STOP"]),
+           A.Fn("val", [], [0, "SLOAD", 0, "MSTORE", 32, 0, "RETURN"], mutability="view", outputs=[U]),
+           A.Fn("armed", [], [1, "SLOAD", 0, "MSTORE", 32, 0, "RETURN"], mutability="view", outputs=[U])]
+    if idx % 2:
+        fns[1], fns[2] = fns[2], fns[1]
+    target = A.ContractSpec("ArmT", fns, filename="ArmT.sol")
+    init = target.creation()
+    st = []
+    padded = init + bytes((-len(init)) % 32)
+    for i in range(0, len(padded), 32):
+        st += [("push", int.from_bytes(padded[i : i + 32], "big"), 32), 0x400 + i, "MSTORE"]
+    setup = A.Fn("setUp", [], st + [len(init), 0x400, 0, "CREATE", 0, "SSTORE", "STOP"])
+    view = lambda name: A.call_raw(invgen.TARGET0, [f for f in fns if f.name == name][0].selector, ret=0x500) + ["POP", 0x500, "MLOAD"]
+    # x fresh; fails iff armed == 1 and (val * x) & 1 == 1
+    inv = A.Fn("invariant_odd_product", [], view("armed") + [1, "EQ", "ISZERO", "@ok", "JUMPI"] + A.svm_create_uint256("x") + view("val") + ["MUL", 1, "AND", 1, "EQ", "@bad", "JUMPI", ":ok", "STOP", ":bad"] + A.panic(1))
+    spec = A.ContractSpec(f"WQ{idx}", [setup, inv], filename=f"WQ{idx}.sol")
+    outs = {}
+    for cache in (True, False):
+        REC["hits"].clear()
+        REC["on"] = cache
+        try:
+            outs[cache] = A.run(A.make_ctx(spec, funsigs=[inv.sig], overrides=dict(invariant_depth=2, cache_solver=cache, solver="yices", solver_threads=1), others=[target]))
+        finally:
+            REC["on"] = False
+        if cache:
+            hits = list(REC["hits"])
+    res["counters"]["evaluations"] += 1
+    res["counters"]["weaker_query_histories"] += 1
+    on, off = outs[True], outs[False]
+    if on.exception or off.exception or len(on.results) != 1 or len(off.results) != 1:
+        res["counters"]["run_failed"] += 1
+        return
+    wit = dict(index=idx, mode="weaker-query", with_cache=on.results[0].exitcode, without_cache=off.results[0].exitcode, cache_hits=len(hits))
+    for h in hits:
+        res["counters"]["cache_hits"] += 1
+        if resolve_hit(h, res) == "sat":
+            res["violations"].append(dict(what="a satisfiable query was answered unsat from the unsat-core cache (a weakening of a cached unsat query)", key="unsound-hit-weaker-query", cores=h["cores"][:3], assertions=h["assertions"][:20], **wit))
+            break
+    if on.results[0].exitcode != off.results[0].exitcode or on.results[0].exitcode != 1:
+        res["violations"].append(dict(what="enabling the solver cache changed the verdict of an invariant test whose later frontier state has a weaker failing query than an earlier one", key="differential-weaker-query", **wit))
+    else:
+        res["distinct"].append(f"weaker:{idx}")
+
+
+def case_invariant_cache(seed, idx, res):
+    """invariant tests solve queries of many transactions / frontier states in one function context: with --cache-solver the verdicts and the
+    number of counterexamples must equal those without it (ground truth for FAIL from the explicit-state oracle), and every cache hit is
+    re-solved.  Frontier states carry different path prefixes, so one state's query can be a subset or a superset of another state's core."""
+    import invgen2
+
+    rng = random.Random(f"c16-inv-{seed}-{idx}")
+    c = invgen2.make_case(rng, kind=rng.choice(["setter", "setter", "flags", "counter", "owner"]), depth=rng.choice([1, 2, 2]))
+    others = list(c.others)
+    sigs = [f.sig for f in c.invs]
+    outs = {}
+    hits_on = []
+    import symrun
+
+    up = rng.choice([0.0, 0.5, 1.0, 1.0])  # branching `unknown`s let infeasible candidates reach the assertion solver, which leaves unsat cores
+    threads = rng.choice([1, 4])
+    res["features"][f"invariant-cache:unknown_p={up}"] += 1
+    for cache in (True, False):
+        REC["hits"].clear()
+        REC["on"] = cache
+        REC["gc"] = cache
+        symrun.MON.unknown_p, symrun.MON.unknown_rng, symrun.MON.step_budget = up, random.Random(idx), 0
+        try:
+            outs[cache] = A.run(A.make_ctx(c.test, funsigs=sigs, overrides=dict(invariant_depth=c.depth, cache_solver=cache, solver="yices", solver_threads=threads), others=others))
+        finally:
+            REC["on"] = False
+            REC["gc"] = False
+            symrun.MON.unknown_p = 0.0
+        if cache:
+            hits_on = list(REC["hits"])
+    res["counters"]["evaluations"] += 1
+    res["counters"]["invariant_cache_histories"] += 1
+    res["counters"]["gc_cycles"] += REC["gc_cycles"]
+    REC["gc_cycles"] = 0
+    on, off = outs[True], outs[False]
+    wit = dict(index=idx, mode="invariant-cache", kind=c.kind, depth=c.depth)
+    if on.exception or off.exception or len(on.results) != len(sigs) or len(off.results) != len(sigs):
+        res["counters"]["run_failed"] += 1
+        return
+    for h in hits_on:
+        res["counters"]["cache_hits"] += 1
+        if resolve_hit(h, res) == "sat":
+            res["violations"].append(dict(what="a satisfiable query was answered unsat from the unsat-core cache (invariant test)", key="unsound-hit-invariant", cores=h["cores"][:3], assertions=h["assertions"][:20], **wit))
+            break
+    orc = invgen2.oracle(c, c.depth, max_nodes=2000)
+    for f, a, b in zip(c.invs, on.results, off.results):
+        res["counters"]["differential_pairs"] += 1
+        if a.exitcode != b.exitcode:
+            res["violations"].append(dict(what="enabling the solver cache changed the verdict of an invariant test", key="differential-invariant", test=f.sig, with_cache=a.exitcode, without_cache=b.exitcode, **wit))
+        if orc["inv"].get(f.sig) is not None and a.exitcode == 0 and not on.warnings():
+            res["violations"].append(dict(what="invariant test PASS with the cache on although a call sequence breaks the invariant", key="cache-missed-sequence", test=f.sig, **wit))
+    res["distinct"].append(f"invcache:{idx}")
+
+
 def worker(task):
     _imports()
     install()
@@ -387,7 +554,7 @@ def worker2(task):
     kind, lo, hi, seed = task
     res = new_result()
     for idx in range(lo, hi):
-        (case_empty_core if kind == "empty" else case_cross_context)(seed, idx, res)
+        {"empty": case_empty_core, "cross": case_cross_context, "invcache": case_invariant_cache, "weaker": case_weaker_query, "crafted": case_crafted_cores}[kind](seed, idx, res)
     return res
 
 
@@ -401,16 +568,22 @@ def main():
         w = json.load(open(run.replay))["witness"]
         res = new_result()
         install()
-        {"empty-core": case_empty_core, "cross-context": case_cross_context}.get(w.get("mode"), case)(run.seed, w["index"], res)
+        {"empty-core": case_empty_core, "cross-context": case_cross_context, "invariant-cache": case_invariant_cache, "weaker-query": case_weaker_query, "crafted": case_crafted_cores}.get(w.get("mode"), case)(run.seed, w["index"], res)
         run.merge(res)
         run.finish()
     n = run.n(70, 2000)
     tasks = [(lo, min(n, lo + 2), run.seed) for lo in range(0, n, 2)]
     run_pool(run, worker, tasks, soft_timeout=900)
-    tasks2 = [("empty", i, i + 2, run.seed) for i in range(0, run.n(8, 100), 2)] + [("cross", i, i + 1, run.seed) for i in range(run.n(6, 80))]
+    tasks2 = [("empty", i, i + 2, run.seed) for i in range(0, run.n(8, 100), 2)] + [("cross", i, i + 1, run.seed) for i in range(run.n(4, 80))]
+    tasks2 += [("invcache", i, i + 2, run.seed) for i in range(0, run.n(12, 300), 2)]
+    tasks2 += [("weaker", i, i + 2, run.seed) for i in range(0, run.n(4, 40), 2)]
+    tasks2 += [("crafted", i, i + 5, run.seed) for i in range(0, run.n(20, 400), 5)]
     run_pool(run, worker2, tasks2, soft_timeout=900)
     run.require("empty_core_histories", 6)
-    run.require("cross_context_histories", 5)
+    run.require("cross_context_histories", 4)
+    run.require("invariant_cache_histories", 8)
+    run.require("weaker_query_histories", 4)
+    run.require("crafted_hits_on_supersets", 10)
     run.require("cache_hits", 100)
     run.require("hits_confirmed_unsat", 100)
     run.require("differential_pairs", 100)
